@@ -847,7 +847,7 @@ def compare(o, a):
         return a.split('|')[0] == o['impl'], a
     if k == 'mext':
         return a.split('|')[0] == o['impl'], a
-    if k == 'mparse':
+    if k in ('mparse', 'spushpop'):
         parts = a.split('|')
         view = '%s|%s' % (parts[0], parts[2]) if len(parts) == 3 else a
         return view == o['impl'], a
